@@ -331,6 +331,9 @@ func (d caseDesc) rank() string {
 		if k != "valid_min" {
 			odd++
 		}
+		if k == "combined_causes" {
+			odd++
+		}
 	}
 	return fmt.Sprintf("%05d|%d|%d|%02d|%s", d.size(), odd+len(d.At), pol, pre, d.label())
 }
@@ -440,6 +443,9 @@ func runCase(e *env, ps pathSpec, ks []kind, raw []byte, desc caseDesc, tl *tall
 	// name of item i's defect for violation keys: the reason its kind was built for if the reference confirms
 	// it, else the first reference reason
 	reasonAt := func(i int) string {
+		if contains(offending[i], "id-duplicate-in-batch") { // decidable from the request alone: names the item even if its id is stored as well
+			return "id-duplicate-in-batch"
+		}
 		if i >= 0 && i < len(ks) && contains(offending[i], ks[i].Primary) {
 			return ks[i].Primary
 		}
@@ -533,7 +539,7 @@ func runCase(e *env, ps pathSpec, ks []kind, raw []byte, desc caseDesc, tl *tall
 		tl.codes[cause] = map[string]struct{}{}
 	}
 	tl.codes[cause][verdict] = struct{}{}
-	if len(tl.samples) < 2 && n == 2 && (lowest == 1 || expectAccept) {
+	if len(tl.samples) < 2 && n == 2 && e.pol.Name == policies[0].Name && (lowest == 1 || expectAccept) {
 		tl.samples = append(tl.samples, map[string]any{"case": desc.label(), "request": desc.Request, "status": status, "reply": desc.Reply,
 			"reference":         map[string]any{"accept": expectAccept, "first_unacceptable": lowest, "reasons": reasonsAt(offending, lowest)},
 			"queue_rows_before": len(e.preMsgs), "queue_rows_after": len(postMsgs)})
